@@ -114,6 +114,9 @@ def check_case(case):
                     if int_class or abs(M.dur_len(inv)) > tol:
                         fail = "inverse: %r + (-1 * itself) = %s is not empty" \
                                % (ka, inv)
+                elif inv == D() and hash(inv) != hash(D()):
+                    fail = "inverse_hash: %r + (-1 * itself) == the empty " \
+                           "duration but hashes differently" % (ka,)
             if fail is None and int_class:
                 acc = D()
                 for _ in range(abs(n)):
